@@ -191,6 +191,42 @@ def replay_report(model):
     return {"reproduced": bool(said_not and float(ferr) <= 1.0e3), "max_force": float(ferr), "force_tol": 1.0e3, "max_evl": 1, "printed": text.strip().splitlines()[-1]}
 
 
+def replay_stop_rule(model):
+    """Real run() with onestep replaced by a recorder that hands out prescribed forces for a batch of two molecules: molecule 0 is
+    within tolerance at the first evaluation and far above it afterwards, molecule 1 meets the tolerance at evaluation 3.  The
+    run must not stop (nor report convergence) while the largest force component of the batch is above the tolerance."""
+    import io, contextlib
+    import torch
+    from seqm.MolecularDynamics import Geometry_Optimization_SD
+
+    torch.set_default_dtype(torch.float64)
+    opt = object.__new__(Geometry_Optimization_SD)
+    torch.nn.Module.__init__(opt)
+    opt.__dict__.update(alpha=0.01, force_tol=0.05, max_evl=8, seqm_parameters={})
+    seq = [([0.01, 1.0]), ([5.0, 0.5]), ([5.0, 0.01]), ([0.04, 0.01]), ([0.04, 0.01])]
+    calls = []
+
+    def onestep(molecule, learned_parameters=dict()):
+        k = min(len(calls), len(seq) - 1)
+        calls.append(k)
+        f = torch.zeros(2, 1, 3)
+        f[0, 0, 0], f[1, 0, 0] = seq[k]
+        return f, torch.tensor([-1.0 - 0.1 * k, -2.0 - 0.1 * k])
+
+    opt.onestep = onestep
+    mol = type("M", (), {})()
+    mol.coordinates = torch.zeros(2, 1, 3)
+    mol.species = torch.ones(2, 1, dtype=torch.long)
+    buf = io.StringIO()
+    with contextlib.redirect_stdout(buf):
+        out = opt.run(mol, log=True)
+    last = seq[min(len(calls), len(seq)) - 1]
+    text = buf.getvalue().strip().splitlines()[-1] if buf.getvalue().strip() else ""
+    said_converged = ("converged" in text) and ("not converged" not in text)
+    bad = (said_converged and max(last) > 0.05) or (len(calls) != 4)
+    return {"reproduced": bool(bad), "evaluations_done": len(calls), "first_evaluation_with_batch_max_force_within_tolerance": 4, "max_force_components_at_the_last_evaluation": last, "force_tol": 0.05, "printed": text}
+
+
 def task_run(ctx):
     """run (loop cut with ghost history): stops at the first evaluation meeting the tolerance or after max_evl evaluations, returns the residuals of the last evaluation and reports 'not converged' exactly when the tolerance was not met."""
     ctx.under_contract(SD + ".run", loops_cut=["for i in range(self.max_evl)"], stubs=["onestep"])
@@ -255,7 +291,7 @@ def task_run(ctx):
             ctx.prove("returns.force-residual-of-last-evaluation@p%d" % p.path_id, ferr.a.reshape(-1)[0] == loop._ferr(k - 1), pc=p.pc)
     if min(kinds.values()) == 0:
         ctx.error("paths", "vacuous exploration: %r" % kinds)
-    ctx.discharge(ex.all_obligations())
+    ctx.discharge(ex.all_obligations(), replay=replay_stop_rule, classify=lambda m_, r: "stop-rule" if r and r.get("reproduced") else "other")
     ctx.assume_note("onestep replaced by its contract (task onestep); ferr(k) := max|F_k| and L(k) := Etot of evaluation k are ghost history functions")
     ctx.undecided_clause("monotone descent for small alpha (needs a Lipschitz bound on the real energy surface)")
 
